@@ -246,4 +246,14 @@ theorem nodup_of_nodup_map {α β : Type} (f : α → β) :
     rw [List.nodup_cons]
     exact ⟨fun hm => h.1 (List.mem_map.mpr ⟨a, hm, rfl⟩), ih h.2⟩
 
+theorem nodup_getElem?_inj {α : Type} {l : List α} (h : l.Nodup) {i j : Nat} {a : α}
+    (hi : l[i]? = some a) (hj : l[j]? = some a) : i = j := by
+  obtain ⟨hi', ei⟩ := List.getElem?_eq_some_iff.mp hi
+  obtain ⟨hj', ej⟩ := List.getElem?_eq_some_iff.mp hj
+  have hp : l.Pairwise (· ≠ ·) := h
+  rcases Nat.lt_trichotomy i j with hlt | heq | hgt
+  · exact absurd (ei.trans ej.symm) (List.pairwise_iff_getElem.mp hp i j hi' hj' hlt)
+  · exact heq
+  · exact absurd (ej.trans ei.symm) (List.pairwise_iff_getElem.mp hp j i hj' hi' hgt)
+
 end DD
